@@ -318,3 +318,13 @@ PROPS["C18"] = {
         "thorough": [PG("identity"), PG("lists"), PG("scalars_full"), PG("pool")],
     },
 }
+
+def RD(slice_):
+    return {"name": "redis_" + slice_, "cases": "redisconfig", "spec": "RedisConfig.tla", "invariants": ["Total"],
+            "constants": {"Slice": slice_}, "binary": "xh"}
+
+
+PROPS["C19"] = {
+    "kind": "cases", "xh": True, "invariants": ["Total"], "actprops": [], "preds": [],
+    "configs": {"quick": [RD("builder"), RD("conv"), RD("serde")], "thorough": [RD("builder"), RD("conv"), RD("serde")]},
+}
